@@ -30,6 +30,31 @@ P = {
    "Every path of <= L steps over the step alphabet (every index in [-len-2,len+1], keys colliding with first/last/size, indices through variables and nested paths, nil/undefined/array-valued indices) on 6-7 nested roots must dump the value the reference resolves, or fail with an error; every listed literal must print the value it denotes.",
    "string index on array, first/last of objects/strings, size of non-string scalars are unspecified and skipped",
    "DESIGN.md §5 C07"),
+ "C03": (True, "enum+refliquid", "exploration",
+   "complete products of text segments (whitespace runs x cores with stray delimiters/quotes) around output/tag/block markup with every trim-marker side combination; all markup-free token sequences; all raw and comment bodies up to k items; compared with a direct prediction",
+   "Every combination is rendered and must equal the prediction: text byte-for-byte, exactly the whitespace run touching a '-' side removed, raw bodies verbatim, comments emitting nothing and leaving bindings/counters/cycles untouched. Exhaustive within the stated alphabets.",
+   "whitespace = space/tab/CR/LF; concatenations that spell an opening delimiter are skipped (C01's domain) and counted; whitespace claimed by both an inner `-%}` and `{%- endraw` is unspecified",
+   "DESIGN.md §5 C03"),
+ "C08": (True, "progen+refliquid", "model_checking",
+   "exhaustive enumeration of caller programs over every include/render invocation form of a 15-partial library (plus missing and broken partials), each execution compared with the reference interpreter's scope/register model",
+   "All caller programs with <= N nodes (include/render through literal and variable names, key:value, with-as, for-as; inside and outside for / if true / if false / capture) on 2 data objects must produce the reference interpreter's output or fail exactly when it predicts an error (missing/broken partial on an executed path, failing partial).",
+   "increment inside a rendered partial, break/continue at top level of a render-for partial, render-for over an empty collection naming a missing partial are unspecified (skipped, counted)",
+   "DESIGN.md §5 C08"),
+ "C09": (True, "history exploration", "model_checking",
+   "breadth-first exhaustive exploration of all render-call histories up to length k on one shared parser, each call compared with the same call on a freshly built parser",
+   "State = history of render calls on shared Parser/Template objects; all histories of length <= k over (template x data) alphabets of 6 template sets (cycle/increment/ifchanged, assign/capture, break/continue incl. top-level break and failing renders, errors inside capture/include/render, valid/broken/missing partials with dynamic names, tablerow) under eager, lazy and on-demand stores; plus every generated C08 scenario rendered repeatedly on one parser shared by the whole enumeration.",
+   "baseline = same call on a fresh parser, itself computed twice; template sets avoid multi-key object iteration",
+   "DESIGN.md §5 C09"),
+ "C10": (True, "faultsink", "fault_enumeration",
+   "write-fault enumeration: for every generated program and every write call k of its fault-free run the sink fails at k, accepts a short count then fails, or reports EINTR once",
+   "Every (program, data, fault position, fault kind) is executed: a failing sink must give Err, no write after the failing one, accepted bytes an exact prefix of the fault-free output; EINTR must be retried transparently; the fault-free stream must equal the buffered render.",
+   "std write_all semantics; programs <= 3 (quick) / 4 (thorough) nodes over all writing constructs",
+   "DESIGN.md §5 C10"),
+ "C19": (True, "progen + store exploration", "model_checking",
+   "exhaustive scenario enumeration under the three compilation policies (differential), differential removal/replacement of the broken partial, and exhaustive exploration of PartialStore API call sequences on the three stores",
+   "Every generated scenario rendered d0,d1,d0 per policy must agree across eager/lazy/on-demand and across repetitions; renders that do not reach the broken partial must be unchanged when it is replaced or removed; building the parser must succeed; all API call sequences of length <= k on the three stores must give identical observations.",
+   "in-memory sources with truthful name listing; error comparison on the first message line",
+   "DESIGN.md §5 C19"),
 }
 ORDER = ["C%02d" % i for i in range(1, 21)]
 REASON_WIP = "check not built yet in this round (work in progress; planned per DESIGN.md §5)"
